@@ -118,7 +118,7 @@ theorem table_kinds :
       [("sleep", some [.int32, .int32]),
        ("fs.cd", some [.int32, .bytes]), ("fs.remove", some [.int32, .bytes]), ("fs.mkdir", some [.int32, .bytes]),
        ("fs.download", some [.int32, .bytes]), ("fs.cat", some [.int32, .bytes]),
-       ("fs.cp", some [.int32, .bytes, .bytes]), ("fs.mv", some [.int32, .bytes, .bytes]), ("fs.pwd", some [.int32]),
+       ("fs.cp", some [.int32, .bytes, .bytes]), ("fs.mv", some [.int32, .bytes, .bytes]), ("fs.pwd", some [.int32]), ("fs.upload", some [.int32, .bytes, .int32]),
        ("proc.kill", some [.int32, .int32]), ("proc.modules", some [.int32, .int32]), ("proc.grep", some [.int32, .bytes]),
        ("job.list", some [.int32]), ("job.suspend", some [.int32, .int32]), ("job.resume", some [.int32, .int32]), ("job.kill", some [.int32, .int32]),
        ("token.impersonate", some [.int32, .int32]), ("token.remove", some [.int32, .int32]),
@@ -131,6 +131,11 @@ theorem table_kinds :
 example : wstr [0xF0, 0x9F, 0x93, 0x81] = some (.bytes [0x3D, 0xD8, 0xC1, 0xDC, 0, 0]) := by
   simp [wstr, scalars, encodeUTF16LE, utf16Units, le16]
   decide
+
+/-- (regenerated) an in-memory file reaches the Demon as (id, total size, chunk) -/
+theorem memfile_reads :
+    (Gen.DemonHandlers.reads.find? (fun r => r.1 == "CommandMemFile" && r.2.1 == "")).map (·.2.2) =
+      some ["ParserGetInt32", "ParserGetInt64", "ParserGetBytes"] := by decide
 
 end TaskTable
 
